@@ -639,6 +639,15 @@ func checkWholeContentHash(e *Env, p *load.Program, hb *ssa.Function) {
 				v = x.X
 			case *ssa.Convert:
 				v = x.X
+			case *ssa.UnOp:
+				// a local that a closure captures (`defer func() { _ = f.Close() }()`) lives in a cell: the one value stored into it
+				if al, ok := x.X.(*ssa.Alloc); ok && x.Op == token.MUL {
+					if st := flow.OnlyStore(al); st != nil {
+						v = st.Val
+						continue
+					}
+				}
+				return v
 			default:
 				return v
 			}
